@@ -83,11 +83,14 @@ def _emit(op, l, r, out):
         if side is None:
             continue
         s = side.strip()
-        if s is not None and s.cls == "BinaryOperator" and s.op == "=":
+        depth = 0
+        while s is not None and s.cls == "BinaryOperator" and s.op == "=" and depth < 4:
             tgt = norm(s.kid(0))
             out.append((o, tgt, other, s.kid(0), None))
-            # and about the assigned value itself (e.g. the call)
+            # and about the assigned value itself (e.g. the call, or a nested assignment)
             out.append((o, norm(s.kid(1)), other, s.kid(1), None))
+            s = s.kid(1).strip() if s.kid(1) is not None else None
+            depth += 1
 
 
 class Solver:
@@ -103,6 +106,7 @@ class Solver:
         self.init = init
         self.transfer = transfer
         self.refine = refine
+        self._r4 = refine is not None and refine.__code__.co_argcount >= 4
         self.join = join or (lambda a, b: a | b)
         self.limit = limit
         self.IN = {}
@@ -139,7 +143,7 @@ class Solver:
                 cond, kind = kinds[si]
                 s2 = st
                 if cond is not None and self.refine is not None:
-                    s2 = self.refine(st, cond, kind)
+                    s2 = self.refine(st, cond, kind, blk) if self._r4 else self.refine(st, cond, kind)
                     if s2 is None:
                         continue
                 self.OUT_EDGE[(b, si)] = s2
